@@ -37,6 +37,13 @@ Require Import FutTransform FutTransformProofs.
 Theorem C11_rule_accepted_iff_every_placement_is_allowed : forall (A : Type) (r : frule A),
   (exists t, transform_rule A r = Some t) <-> head_allowed A (fh A r) = true /\ forallb (lit_allowed A (shape_of A (fh A r))) (fb A r) = true.
 Proof. exact rule_accepted_iff_all_placements_allowed. Qed.
+(* whole programs: the transformer model produces an output exactly if every rule is accepted - one forbidden placement anywhere rejects the input, and
+   nothing else does (no rule is rejected because of another rule, the order of the rules, or the number of future predicates met so far) *)
+Theorem C11_program_accepted_iff_every_placement_is_allowed : forall (A : Type) (leA : A -> A -> bool) (P : list (frule A)),
+  (exists o, transform_program A leA P = Some o) <->
+  forall r, In r P -> head_allowed A (fh A r) = true /\ forallb (lit_allowed A (shape_of A (fh A r))) (fb A r) = true.
+Proof. exact transform_program_accepts_iff. Qed.
+Print Assumptions C11_program_accepted_iff_every_placement_is_allowed.
 Require Import Loc LocProofs.
 (* the source location named in a diagnostic (str_location, Model/Loc.v, compared with the function of /repo on every run): the rendering is
    file:line:column followed by the part of the end position from the first differing component on, and begin and end can be read back from it -
